@@ -1661,6 +1661,33 @@ fn step_c13(ws: &[&str], s: &mut Session, rep: &mut Report) -> Option<String> {
             }
             None => "bad-op".into(),
         },
+        // `BytesCodec::decode` called directly, until `None`, on a buffer of n bytes (i*31+7 mod 256):
+        // the frames are a chunking of the buffer, in order
+        ["bdec", n] => match n.parse::<usize>() {
+            Ok(n) if n <= 40000 && ws[1].bytes().all(|c| c.is_ascii_digit()) => {
+                let data: Vec<u8> = (0..n).map(|i| ((i * 31 + 7) % 256) as u8).collect();
+                let mut src = BytesMut::from(&data[..]);
+                let mut codec = BytesCodec;
+                let mut frames: Vec<Vec<u8>> = vec![];
+                let r = catch(|| {
+                    while let Ok(Some(f)) = codec.decode(&mut src) {
+                        frames.push(f.to_vec());
+                        if frames.len() > n + 2 {
+                            break;
+                        }
+                    }
+                });
+                if r.is_err() {
+                    rep.t3("C13", &format!("BytesCodec::decode panicked on a buffer of {n} bytes"));
+                    return Some("panic".into());
+                }
+                if frames.concat() != data || frames.iter().any(|f| f.is_empty()) {
+                    rep.t3("C13", &format!("BytesCodec::decode on a buffer of {n} bytes yields frames of {:?} bytes whose concatenation {} is not the buffer {}", frames.iter().map(|f| f.len()).collect::<Vec<_>>(), show_bytes(&frames.concat()), show_bytes(&data)));
+                }
+                format!("[{}]", frames.iter().map(|f| show_bytes(f)).collect::<Vec<_>>().join(","))
+            }
+            _ => "bad-op".into(),
+        },
         ["mapio"] => {
             if s.dead {
                 return Some("panic".into());
@@ -2063,6 +2090,35 @@ fn gen_c13(a: &Args, w: &mut dyn Write) {
             emit_c13x(w, &mut id, Sel::Lines, "sweep", &script, polls, if n % 4 == 1 { " init=parts" } else { "" });
         }
     }
+    // (G2) BIG handed-over read buffers (`with_read_buf`: 8191 / 8192 / 8193 / 16384 / 20000 bytes,
+    // more than `Framed::new` ever buffers), then a stream; and the codecs called directly on big buffers
+    {
+        let line_unit: Vec<u8> = (0..63).map(|i| b'a' + (i % 26) as u8).chain([b'\n']).collect();
+        let len_unit: Vec<u8> = [62u8].into_iter().chain((0..62).map(|i| (i * 3 + 1) as u8)).collect();
+        let bytes_unit: Vec<u8> = (0..97).map(|i| (i * 5 + 1) as u8).collect();
+        let mut k = 0usize;
+        for (sel, unit) in [(Sel::Bytes, &bytes_unit), (Sel::Lines, &line_unit), (Sel::Len, &len_unit), (Sel::LenX, &len_unit), (Sel::Bytes, &line_unit)] {
+            for total in [8191usize, 8192, 8193, 16384, 20000, 1025, 9000] {
+                for variant in 0..4 {
+                    k += 1;
+                    let rest: Vec<u8> = unit.iter().copied().cycle().skip(total % unit.len()).take(150).collect();
+                    let script = match variant {
+                        0 => vec![],
+                        1 => vec![Rd::Data(rest[..70].to_vec()), Rd::Data(rest[70..].to_vec())],
+                        2 => vec![Rd::Pending, Rd::Data(rest.clone()), Rd::Err(kinds[k % kinds.len()]), Rd::Data(vec![b'\n'])],
+                        _ => vec![Rd::Data(rest.iter().copied().cycle().take(1024).collect()), Rd::Data(rest.clone())],
+                    };
+                    let extra = format!(" init=rbufr:{total}:{}", hex(unit));
+                    emit_c13x(w, &mut id, sel, "bigrbuf", &script, total / 64 + script.len() + 24, &extra);
+                }
+            }
+        }
+        id += 1;
+        writeln!(w, "case c13-bytes-direct-{id} codec=bytes").unwrap();
+        for n in [0usize, 1, 8191, 8192, 8193, 16384, 16385, 20000, 40000] {
+            writeln!(w, "bdec {n}").unwrap();
+        }
+    }
     // (D) long random streams crossing the 1 KiB / 8 KiB marks, random chunk sizes up to 1 KiB
     let mut rng = Rng::new(a.seed ^ 0x13);
     let cases = if thorough { 900 } else { 210 };
@@ -2156,6 +2212,13 @@ fn gen_c13(a: &Args, w: &mut dyn Write) {
     writeln!(w, "poll").unwrap();
     writeln!(w, "case c13-badinit codec=len init=nope").unwrap();
     writeln!(w, "poll").unwrap();
+    writeln!(w, "case c13-badinit3 codec=len init=rbufr:40001:61").unwrap();
+    writeln!(w, "poll").unwrap();
+    writeln!(w, "case c13-badinit4 codec=len init=rbufr:10:").unwrap();
+    writeln!(w, "poll").unwrap();
+    writeln!(w, "case c13-badinit5 codec=len init=rbufr:x:61").unwrap();
+    writeln!(w, "bdec x").unwrap();
+    writeln!(w, "bdec 40001").unwrap();
     writeln!(w, "case c13-badinit2 codec=len init=rbuf:6").unwrap();
     writeln!(w, "poll").unwrap();
     writeln!(w, "case c13-init-new codec=len init=new").unwrap();
@@ -2809,6 +2872,16 @@ fn parse_case(ws: &[&str]) -> Option<(Sel, Init, u8)> {
             "init=new" => init = Init::New,
             "init=parts" => init = Init::Parts,
             x if x.starts_with("init=rbuf:") => init = Init::Rbuf(unhex(&x[10..]).filter(|b| b.len() <= MAX_CHUNK)?),
+            // a BIG handed-over buffer: `init=rbufr:<len>:<hex unit>` = the unit repeated, cut at <len> bytes
+            x if x.starts_with("init=rbufr:") => {
+                let (n, unit) = x[11..].split_once(':')?;
+                if n.is_empty() || !n.bytes().all(|c| c.is_ascii_digit()) {
+                    return None;
+                }
+                let n = n.parse::<usize>().ok().filter(|n| *n <= 40000)?;
+                let unit = unhex(unit).filter(|u| !u.is_empty() && u.len() <= 256)?;
+                init = Init::Rbuf(unit.iter().copied().cycle().take(n).collect());
+            }
             x if x.starts_with("init=") => return None,
             _ => {}
         }
